@@ -33,6 +33,7 @@ def key(e, case):
 def run(ctx):
     ctx.model_check("Memory", "MC_Memory_dev1.cfg", workers=1, expect_violation="Invariant FrameCondition is violated")
     ctx.model_check("Memory", "MC_Memory_dev2.cfg", workers=1, expect_violation="Invariant FrameCondition is violated")
+    ctx.model_check("Memory", "MC_Memory_dev3.cfg", workers=1, expect_violation="Invariant FrameCondition is violated")
     depth = ctx.pick(2, 3)
     beh = []
     for k in KINDS:
